@@ -111,7 +111,7 @@ func checkMain(args []string) int {
 		case "descriptors":
 			gs = w.genDescriptors(us)
 		case "lemma":
-			gs = []*GenUnit{w.genLemmaUnit(us)}
+			gs = w.genLemmaUnits(us)
 		default:
 			fmt.Fprintln(os.Stderr, "govc: unknown unit kind", us.Kind)
 			return 2
@@ -141,8 +141,11 @@ func checkMain(args []string) int {
 			}
 			it := &Item{G: g, O: o, Unit: g.Name}
 			as := g.E.assumes[:o.NAssum]
-			if len(g.WatchAssumes) > 0 {
-				as = append(append([]*Term{}, as...), g.WatchAssumes...)
+			if o.Assumps != nil {
+				as = o.Assumps
+			}
+			if len(g.WatchAssumes) > 0 || len(o.Local) > 0 {
+				as = append(append(append([]*Term{}, as...), g.WatchAssumes...), o.Local...)
 			}
 			it.Script = script(as, o.Cond, append(g.E.inputTerms(), g.WatchNames...))
 			items = append(items, it)
@@ -187,7 +190,11 @@ func checkMain(args []string) int {
 			fmt.Fprintf(os.Stderr, "govc: finding class for %s: %v\n", it.O.Name, err)
 			continue
 		}
-		as := append(append([]*Term{}, it.G.E.assumes[:it.O.NAssum]...), not(excl))
+		base := it.G.E.assumes[:it.O.NAssum]
+		if it.O.Assumps != nil {
+			base = it.O.Assumps
+		}
+		as := append(append(append([]*Term{}, base...), it.O.Local...), not(excl))
 		r := solvePortfolio(script(as, it.O.Cond, nil), secs, seed)
 		it.ExclRes = &r
 		if r.Verdict == "unsat" {
